@@ -240,7 +240,10 @@ pub fn bfs_hook<W: World, F: FnMut(&[W::Action], &[u16], &mut Stats)>(
                     replay::<W>(prog, cfg, &node.hist, stats)
                 };
                 marker.mark(ids.0, ids.1, &node.choices, i as u16);
-                let viols = w2.step(a, true);
+                let mut viols = w2.step(a, true);
+                if cfg.armed.contains(&"C11") && !w2.dead() {
+                    viols.extend(audit_violations(w2.audit()));
+                }
                 stats.transitions += 1;
                 stats.histories += 1;
                 stats.merge_counters(w2.take_counters());
@@ -375,7 +378,10 @@ pub fn run_history<W: World>(prog: &W::Prog, cfg: &Cfg, hist: &[W::Action]) -> (
     let mut out = vec![];
     let mut explain = vec![];
     for (i, a) in hist.iter().enumerate() {
-        let vs = w.step(a, true);
+        let mut vs = w.step(a, true);
+        if cfg.armed.contains(&"C11") && !w.dead() {
+            vs.extend(audit_violations(w.audit()));
+        }
         explain.push(w.explain_last());
         for v in vs {
             out.push((i, v));
